@@ -36,10 +36,9 @@ Proof.
     repeat split; simpl; try assumption.
     + now rewrite tset_ids.
     + rewrite Forall_forall in *. intros y Hy. apply tset_In in Hy as [->|Hy].
-      * destruct (F _ Hs') as [? [? [? ?]]]. repeat split; simpl; assumption.
-      * destruct (F _ Hy) as [? [? [? ?]]]. repeat split; simpl; assumption.
-  - repeat split; simpl; try assumption.
-    rewrite Forall_forall in *. intros y Hy. destruct (F _ Hy) as [? [? [? ?]]]. repeat split; simpl; assumption.
+      * destruct (F _ Hs') as [[? ?] [? [? ?]]]. repeat split; simpl; assumption.
+      * destruct (F _ Hy) as [[? ?] [? [? ?]]]. repeat split; simpl; assumption.
+  - split; [exact ND|]. split; [exact F|exact N].
 Qed.
 
 Lemma unknown_finish_send : forall st k n o j, ~ known st (Id j) -> ~ known (finish_send st k n o) (Id j).
@@ -158,7 +157,8 @@ Lemma first_visit_ok : forall c a st k,
 Proof.
   intros c a st k ND. destruct (tfind k (st_table st)) as [s|] eqn:T.
   - destruct (tfind_Some _ _ _ T) as [Hs Hk]. destruct (deliverable c s (st_now st)) eqn:D.
-    + intros obs. unfold visit_ok. simpl. exists s. repeat split; try assumption. now apply deliverable_live.
+    + intros obs. unfold visit_ok. simpl. exists s.
+      split; [exact Hs|]. split; [exact Hk|]. split; [now apply deliverable_live|reflexivity].
     + unfold visit_ok. simpl. intros s0 H0 E0 L.
       pose proof (tfind_NoDup _ _ ND H0) as T0. rewrite E0, T in T0. inversion T0; subst s0.
       apply deliverable_live in L. congruence.
@@ -233,7 +233,7 @@ Lemma fan_unsub_blocks : forall c j a outs recv inter st d pre v post,
   Inv c st -> c_sync c = true -> j < st_next st ->
   snd (fst (fan c a outs recv inter st d)) = pre ++ v :: post ->
   (exists h, v_hand v = Some h) ->
-  In (Unsubscribe (Id j)) (nth (length (hands_of pre)) inter []) ->
+  In (Unsubscribe (Id j)) (nth (List.length (hands_of pre)) inter []) ->
   Forall (fun v' => v_k v' = j -> v_hand v' = None) post.
 Proof.
   intros c j a outs recv. induction recv as [|k r IH]; intros inter st d pre v post I S L E Hv Hin; simpl in E.
@@ -333,13 +333,163 @@ Qed.
 
 Lemma xcheck_holds : forall c xs st, Inv c st -> xcheck c st xs = true.
 Proof.
-  intros c xs. induction xs as [|x r IH]; intros st I; simpl; [reflexivity|].
+  intros c xs. induction xs as [|x r IH]; intros st I; [reflexivity|].
   destruct x as [o|a outs order inter].
-  - rewrite check_C08_holds. simpl. apply IH. now apply Inv_step.
-  - rewrite IH by (now apply Inv_fan_step). rewrite andb_true_r.
+  - change (check_C08 c st [o] && xcheck c (fst (step c st o)) r = true).
+    rewrite check_C08_holds. simpl. apply IH. now apply Inv_step.
+  - change (forallb (check_visit c) (fan_visits c st a outs order inter) &&
+            xcheck c (fst (fan_step c st a outs order inter)) r = true).
+    rewrite IH by (now apply Inv_fan_step). rewrite andb_true_r.
     apply forallb_forall. intros v Hv. unfold fan_visits in Hv.
     pose proof (fan_visits_ok c a outs (receivers st a order) inter st [] I) as FV.
     pose proof (proj2 (fan_Inv c a outs (receivers st a order) inter st [] I)) as FI.
     rewrite Forall_forall in FV, FI.
     apply (check_visit_ok c a); [exact (proj1 (FI _ Hv))|now apply FV].
+Qed.
+
+(* ================================================================== G. statements used by Props/C08.v *)
+Lemma visit_ok_iff : forall c a v, NoDup (map s_id (st_table (v_st v))) -> visit_ok c a v ->
+  ((exists h, v_hand v = Some h) <->
+   exists s, In s (st_table (v_st v)) /\ s_id s = v_k v /\ live c s (st_now (v_st v))) /\
+  (forall m obs, v_hand v = Some (m, obs) ->
+   exists s, In s (st_table (v_st v)) /\ s_id s = v_k v /\ m = Notify (v_k v) a (s_notify s)).
+Proof.
+  intros c a v ND V. unfold visit_ok in V. destruct (v_hand v) as [[m obs]|].
+  - destruct V as [s [Hs [Hk [L Em]]]]. split.
+    + split; [intros _; exists s; auto|intros _; eauto].
+    + intros m0 obs0 E. inversion E; subst. exists s. auto.
+  - split.
+    + split; [intros [h E]; discriminate|]. intros [s [Hs [Hk L]]]. exfalso. exact (V s Hs Hk L).
+    + intros m0 obs0 E. discriminate.
+Qed.
+
+Lemma fan_visit_spec : forall c st a outs order inter v, Inv c st ->
+  In v (fan_visits c st a outs order inter) ->
+  ((exists h, v_hand v = Some h) <->
+   exists s, In s (st_table (v_st v)) /\ s_id s = v_k v /\ live c s (st_now (v_st v))) /\
+  (forall m obs, v_hand v = Some (m, obs) ->
+   exists s, In s (st_table (v_st v)) /\ s_id s = v_k v /\ m = Notify (v_k v) a (s_notify s)).
+Proof.
+  intros c st a outs order inter v I Hv. unfold fan_visits in Hv.
+  pose proof (fan_visits_ok c a outs (receivers st a order) inter st [] I) as FV.
+  pose proof (proj2 (fan_Inv c a outs (receivers st a order) inter st [] I)) as FI.
+  rewrite Forall_forall in FV, FI. apply visit_ok_iff; [exact (proj1 (FI _ Hv))|now apply FV].
+Qed.
+
+Lemma fan_step_gone : forall c st a outs order inter j, Inv c st -> j < st_next st -> ~ known st (Id j) ->
+  (forall v, In v (fan_visits c st a outs order inter) ->
+     ~ known (v_st v) (Id j) /\ (v_k v = j -> v_hand v = None)) /\
+  ~ known (fst (fan_step c st a outs order inter)) (Id j).
+Proof.
+  intros c st a outs order inter j I L NK.
+  assert (gone c j st) as G by (split; [exact I|split; [exact L|exact NK]]).
+  pose proof (fan_gone c j a outs (receivers st a order) inter st [] G) as [G1 FG].
+  pose proof (fan_visits_ok c a outs (receivers st a order) inter st [] I) as FV.
+  rewrite Forall_forall in FG, FV. split.
+  - intros v Hv. unfold fan_visits in Hv. destruct (FG _ Hv) as [_ [_ NKv]]. split; [exact NKv|].
+    intros Ek. destruct (v_hand v) as [h|] eqn:Eh; [|reflexivity]. exfalso. apply NKv. rewrite <- Ek.
+    apply (handed_known c a); [now apply FV|eauto].
+  - unfold fan_step. destruct (fan c a outs (receivers st a order) inter st []) as [[st1 vs] d]. simpl in G1.
+    destruct G1 as [I1 [L1 NK1]]. pose proof (unknown_forever c d st1 j I1 L1 NK1) as F.
+    destruct (run c st1 d) as [st2 dobs]. exact F.
+Qed.
+
+(* ================================================================== H. the atomic report is a special case *)
+Lemma pfind_pset_same : forall n e p, pfind n (pset n e p) = Some e.
+Proof.
+  intros n e p. induction p as [|[m e0] r IH]; simpl; [now rewrite Z.eqb_refl|].
+  destruct (m =? n) eqn:E; simpl; rewrite E; [reflexivity|exact IH].
+Qed.
+
+Lemma post_split : forall p n u o, post p n u o = exchange (fst (pool_get p n u)) n o.
+Proof.
+  intros p n u o. unfold post, exchange, pool_get.
+  destruct (pfind n p) as [[us d]|]; simpl; rewrite pfind_pset_same.
+  - destruct d; [reflexivity|]. destruct o; reflexivity.
+  - destruct o; reflexivity.
+Qed.
+
+Lemma tset_mid : forall s' s done r, NoDup (map s_id (done ++ s :: r)) -> s_id s' = s_id s ->
+  tset s' (done ++ s :: r) = done ++ s' :: r.
+Proof.
+  intros s' s done r. induction done as [|x done IH]; simpl; intros ND E.
+  - rewrite E, Z.eqb_refl. reflexivity.
+  - inversion ND as [|? ? NI ND']; subst.
+    assert (s_id x <> s_id s) as N.
+    { intros C. apply NI. rewrite C. rewrite map_app. apply in_or_app. right. now left. }
+    destruct (s_id x =? s_id s') eqn:B; [lia|]. now rewrite IH.
+Qed.
+
+Lemma tfind_mid : forall s done r, NoDup (map s_id (done ++ s :: r)) -> tfind (s_id s) (done ++ s :: r) = Some s.
+Proof. intros s done r ND. apply tfind_NoDup; [exact ND|]. apply in_or_app. right. now left. Qed.
+
+Lemma fan_plain : forall c a outs now next rest done p,
+  NoDup (map s_id (done ++ rest)) ->
+  let recv := map s_id (filter (fun s => matches (s_filter s) a) rest) in
+  let F := fan c a outs recv [] (mkState now next (done ++ rest) p) [] in
+  let S := send_all c now a outs rest p in
+  fst (fst F) = mkState now next (done ++ fst (fst S)) (snd (fst S)) /\
+  map fst (hands_of (snd (fst F))) = snd S /\ snd F = [].
+Proof.
+  intros c a outs now next rest. induction rest as [|s r IH]; intros done p ND; simpl.
+  - auto.
+  - assert (NoDup (map s_id ((done ++ [s]) ++ r))) as ND1 by (now rewrite <- app_assoc).
+    destruct (matches (s_filter s) a) eqn:M; simpl.
+    + rewrite (tfind_mid s done r ND). simpl.
+      destruct (deliverable c s now) eqn:D; simpl.
+      * rewrite post_split.
+        unfold finish_send. simpl.
+        destruct (exchange (fst (pool_get p (s_notify s) (s_id s))) (s_notify s) (outcome_at outs (s_notify s)))
+          as [p1 ok] eqn:X. simpl.
+        rewrite (tfind_mid s done r ND).
+        rewrite (tset_mid _ s done r ND) by reflexivity.
+        set (s' := set_errors s (if ok then 0 else s_errors s + 1)).
+        assert (NoDup (map s_id ((done ++ [s']) ++ r))) as ND2.
+        { rewrite <- app_assoc. simpl. rewrite map_app in *. simpl in *. exact ND. }
+        specialize (IH (done ++ [s']) p1 ND2). simpl in IH. rewrite <- app_assoc in IH. simpl in IH.
+        destruct (fan c a outs (map s_id (filter (fun s0 => matches (s_filter s0) a) r)) []
+                      (mkState now next (done ++ s' :: r) p1) []) as [[st4 vs] d].
+        destruct (send_all c now a outs r p1) as [[r' p2] ms]. simpl in *.
+        destruct IH as [E1 [E2 E3]]. subst. rewrite <- app_assoc. simpl.
+        destruct ok; auto.
+      * specialize (IH (done ++ [s]) p ND1). simpl in IH. rewrite <- app_assoc in IH. simpl in IH.
+        destruct (fan c a outs (map s_id (filter (fun s0 => matches (s_filter s0) a) r)) []
+                      (mkState now next (done ++ s :: r) p) []) as [[st4 vs] d].
+        destruct (send_all c now a outs r p) as [[r' p2] ms]. simpl in *.
+        destruct IH as [E1 [E2 E3]]. subst. rewrite <- app_assoc. simpl. auto.
+    + specialize (IH (done ++ [s]) p ND1). simpl in IH. rewrite <- app_assoc in IH. simpl in IH.
+      destruct (fan c a outs (map s_id (filter (fun s0 => matches (s_filter s0) a) r)) []
+                    (mkState now next (done ++ s :: r) p) []) as [[st4 vs] d].
+      destruct (send_all c now a outs r p) as [[r' p2] ms]. simpl in *.
+      destruct IH as [E1 [E2 E3]]. subst. rewrite <- app_assoc. simpl. auto.
+Qed.
+
+Lemma receivers_table_order : forall st a, NoDup (map s_id (st_table st)) ->
+  receivers st a (map s_id (st_table st)) =
+  map s_id (filter (fun s => matches (s_filter s) a) (st_table st)).
+Proof.
+  intros st a ND. unfold receivers.
+  assert (forall l, incl l (st_table st) ->
+            filter (fun k => match tfind k (st_table st) with Some s => matches (s_filter s) a | None => false end)
+                   (map s_id l) = map s_id (filter (fun s => matches (s_filter s) a) l)) as G.
+  { induction l as [|x l IH]; intros I; simpl; [reflexivity|].
+    rewrite (tfind_NoDup _ _ ND (I x (or_introl eq_refl))).
+    rewrite IH by (intros y Hy; apply I; now right).
+    destruct (matches (s_filter x) a); reflexivity. }
+  apply G. apply incl_refl.
+Qed.
+
+(* with nothing interleaved and the receivers in table order, the fine-grained report IS the atomic one *)
+Lemma fan_step_plain : forall c st a outs, NoDup (map s_id (st_table st)) ->
+  fst (fan_step c st a outs (map s_id (st_table st)) []) = fst (step c st (Report a outs)) /\
+  map fst (fst (snd (fan_step c st a outs (map s_id (st_table st)) []))) = msgs_of (step c st (Report a outs)) /\
+  snd (snd (fan_step c st a outs (map s_id (st_table st)) [])) = [].
+Proof.
+  intros c st a outs ND. unfold fan_step, msgs_of. rewrite (receivers_table_order st a ND).
+  destruct st as [now next tbl p]. simpl in *.
+  pose proof (fan_plain c a outs now next tbl [] p ND) as H. simpl in H.
+  destruct (fan c a outs (map s_id (filter (fun s => matches (s_filter s) a) tbl)) [] (mkState now next tbl p) [])
+    as [[st1 vs] d].
+  destruct (send_all c now a outs tbl p) as [[t' p'] ms]. simpl in *.
+  destruct H as [E1 [E2 E3]]. subst. simpl. auto.
 Qed.
